@@ -243,6 +243,11 @@ def main(argv=None):
     try:
         common = mod.prepare(args.tier, seed, scratch) if hasattr(mod, "prepare") else {}
         shard_params = mod.shards(args.tier, seed)
+        corpus = os.path.join(HERE, "vf", "props", "corpus", f"{prop_id}.json")
+        if os.path.exists(corpus) and hasattr(mod, "replay"):
+            # regression corpus: histories that exposed a seeded change once are replayed on every run, so that catching
+            # it does not depend on what the random generators happen to produce after they have been extended
+            shard_params.append({"corpus_file": corpus, "timeout_s": 3300})
         for p in shard_params:
             p.update(common or {})
             p.setdefault("tier", args.tier)
